@@ -38,13 +38,7 @@ type z =
 
 module Nat :
  sig
-  val pred : nat -> nat
-
   val eqb : nat -> nat -> bool
-
-  val leb : nat -> nat -> bool
-
-  val ltb : nat -> nat -> bool
 
   val max : nat -> nat -> nat
 
@@ -100,10 +94,6 @@ module Coq_Pos :
 
   val ggcd : positive -> positive -> positive * (positive * positive)
 
-  val iter_op : ('a1 -> 'a1 -> 'a1) -> positive -> 'a1 -> 'a1
-
-  val to_nat : positive -> nat
-
   val of_succ_nat : nat -> positive
  end
 
@@ -134,25 +124,13 @@ module Z :
 
   val sgn : z -> z
 
-  val leb : z -> z -> bool
-
-  val ltb : z -> z -> bool
-
   val eqb : z -> z -> bool
 
   val abs : z -> z
 
-  val to_nat : z -> nat
-
   val of_nat : nat -> z
 
   val to_pos : z -> positive
-
-  val pos_div_eucl : positive -> z -> z * z
-
-  val div_eucl : z -> z -> z * z
-
-  val div : z -> z -> z
 
   val ggcd : z -> z -> z * (z * z)
  end
@@ -182,10 +160,6 @@ val fold_right : ('a2 -> 'a1 -> 'a1) -> 'a1 -> 'a2 list -> 'a1
 val filter : ('a1 -> bool) -> 'a1 list -> 'a1 list
 
 val combine : 'a1 list -> 'a2 list -> ('a1 * 'a2) list
-
-val firstn : nat -> 'a1 list -> 'a1 list
-
-val skipn : nat -> 'a1 list -> 'a1 list
 
 val seq : nat -> nat -> nat list
 
@@ -242,38 +216,6 @@ val qeqb : q -> q -> bool
 val sumQ : q list -> q
 
 val qnat : nat -> q
-
-type key = n list
-
-type 'a samp =
-| Ret of 'a
-| Fail of err
-| Expo of q * (q -> 'a samp)
-| Flip of q * 'a samp * 'a samp
-| Casc of q list * (nat -> 'a samp)
-| Choose of bool * (key * q) list * (key -> 'a samp)
-| Unif of key list * (key -> 'a samp)
-| Sample of key list * nat * (key list -> 'a samp)
-
-type call =
-| CExpo of q
-| CFlip of q
-| CCasc of q list
-| CPick of key list
-| CAcc of q
-| CSample of key list * nat
-
-val rank : q -> nat
-
-val casc_index : q list -> q -> nat -> nat
-
-val choose_exec :
-  bool -> (key * q) list -> q list -> call list -> (key result * call
-  list) * q list
-
-val rotate : nat -> 'a1 list -> 'a1 list
-
-val exec : 'a1 samp -> q list -> call list -> 'a1 result * call list
 
 val fupd : ('a1 -> 'a1 -> bool) -> ('a1 -> 'a2) -> 'a1 -> 'a2 -> 'a1 -> 'a2
 
